@@ -487,9 +487,17 @@ func (s *Session) Data(r io.Reader) error {
 	if err != nil {
 		return wrapErr(err)
 	}
+	commitAttempted := false
 	defer func() {
 		if err := buf.Remove(); err != nil {
 			s.log.Error("failed to remove buffered body", err)
+		}
+
+		if !commitAttempted {
+			// The message is rejected, targets should release whatever they
+			// hold for it. It also does what cleanSession does.
+			s.abort(bodyCtx)
+			return
 		}
 
 		// go-smtp will call Reset, but it will call Abort if delivery is non-nil.
@@ -508,6 +516,7 @@ func (s *Session) Data(r io.Reader) error {
 		return wrapErr(err)
 	}
 
+	commitAttempted = true
 	if err := s.delivery.Commit(bodyCtx); err != nil {
 		return wrapErr(err)
 	}
@@ -555,9 +564,17 @@ func (s *Session) LMTPData(r io.Reader, sc smtp.StatusCollector) error {
 	if err != nil {
 		return wrapErr(err)
 	}
+	commitAttempted := false
 	defer func() {
 		if err := buf.Remove(); err != nil {
 			s.log.Error("failed to remove buffered body", err)
+		}
+
+		if !commitAttempted {
+			// The message is rejected, targets should release whatever they
+			// hold for it. It also does what cleanSession does.
+			s.abort(bodyCtx)
+			return
 		}
 
 		// go-smtp will call Reset, but it will call Abort if delivery is non-nil.
@@ -576,6 +593,7 @@ func (s *Session) LMTPData(r io.Reader, sc smtp.StatusCollector) error {
 
 	// We can't really tell whether it is failed completely or succeeded
 	// so always commit. Should be harmless, anyway.
+	commitAttempted = true
 	if err := s.delivery.Commit(bodyCtx); err != nil {
 		return wrapErr(err)
 	}
